@@ -633,3 +633,88 @@ impl RefDoc {
         false
     }
 }
+
+/// one mark (a begin/end anchor pair) of a text object, positioned in the full element sequence
+#[derive(Clone, Debug)]
+pub struct MarkDetail {
+    pub id: Id,
+    pub name: String,
+    pub value: ScalarValue,
+    pub expand_before: bool,
+    pub expand_after: bool,
+    /// position of the begin anchor in the element sequence
+    pub begin: usize,
+    /// position of the end anchor (None: not present in this history)
+    pub end: Option<usize>,
+}
+
+impl RefDoc {
+    /// (positions of the visible non-mark elements in the element sequence, all marks)
+    pub fn mark_details(&self, obj: &Option<Id>) -> (Vec<usize>, Vec<MarkDetail>) {
+        let elems = self.elems(obj);
+        let mut visible = vec![];
+        let mut marks: Vec<MarkDetail> = vec![];
+        for (pos, e) in elems.iter().enumerate() {
+            if e.is_mark {
+                let i = self.by_id[&e.id];
+                match &self.ops[i].act {
+                    Act::MarkBegin { name, value, expand } => marks.push(MarkDetail {
+                        id: e.id.clone(),
+                        name: name.clone(),
+                        value: value.clone(),
+                        expand_before: *expand,
+                        expand_after: false,
+                        begin: pos,
+                        end: None,
+                    }),
+                    Act::MarkEnd { expand } => {
+                        let b = Id { ctr: e.id.ctr - 1, actor: e.id.actor.clone() };
+                        if let Some(m) = marks.iter_mut().find(|m| m.id == b) {
+                            m.end = Some(pos);
+                            m.expand_after = *expand;
+                        }
+                    }
+                    _ => {}
+                }
+            } else if !e.vals.is_empty() {
+                visible.push(pos);
+            }
+        }
+        (visible, marks)
+    }
+}
+
+/// an element of a sequence with what a cursor needs: visibility, width and its reference element
+#[derive(Clone, Debug)]
+pub struct SeqElem {
+    pub id: Id,
+    pub visible: bool,
+    pub width: usize,
+    pub is_mark: bool,
+    /// the element this one was inserted after (None = head of the sequence)
+    pub parent: Option<Id>,
+}
+
+impl RefDoc {
+    pub fn seq_elements(&self, obj: &Option<Id>, is_text: bool) -> Vec<SeqElem> {
+        self.elems(obj)
+            .into_iter()
+            .map(|e| {
+                let i = self.by_id[&e.id];
+                let parent = match &self.ops[i].key {
+                    RKey::Elem(p) => Some(p.clone()),
+                    _ => None,
+                };
+                let visible = !e.is_mark && !e.vals.is_empty();
+                let width = if !visible {
+                    0
+                } else if is_text {
+                    width(self.enc, &e.s)
+                } else {
+                    1
+                };
+                SeqElem { id: e.id, visible, width, is_mark: e.is_mark, parent }
+            })
+            .collect()
+    }
+}
